@@ -1709,7 +1709,16 @@ def cmp_ks(c, io, drv):
     got = [dec(x) for x in io["out"]]
     mod = [dec(x) for x in drv["model"]]
     spec = [dec(x) for x in drv["spec"]]
-    exact = c["tau"] == "inf"
+    # exact regime only while binary floating point IS exact: alpha = 1 and every exact value of the run
+    # (each output is fed back) is itself a double.  With a short fractional delay the dyadic denominators
+    # grow by the interpolation weights at every round (delay 9/4: two bits per 2.25 samples) and pass 2**53
+    # within 50 samples; from there on the implementation rounds and the case belongs to the float regime.
+    def _is_double(v):
+        try:
+            return F(float(v)) == v
+        except (OverflowError, ValueError):
+            return False
+    exact = c["tau"] == "inf" and all(_is_double(v) for v in mod)
     if not same_vals(got, mod, exact) or io["end"] != "fuel":
         res.append(("model", "karplus_strong: impl=%s/%s model=%s" % (io["out"], io["end"], drv["model"])))
     if not same_vals(got, spec, exact) or io["end"] != "fuel":
